@@ -83,7 +83,7 @@ def masked_underflow(m, x):
 class C15(core.Check):
     pid = 'C15'
     driver = 'drv_c15'
-    quick_cases = 600
+    quick_cases = 2400
     thorough_cases = 24000
     rule = ('one case = one layer (FTTransformerConvs / TabTransformerConv / ExcelFormerConv / TromptConv / '
             'ExcelFormerDecoder / TromptDecoder) with random hyper-parameters (channels 2-8, heads 1-2, layers 1-2, '
